@@ -3,6 +3,8 @@ Correspondence: xrspatial.zonal.stats (NumPy backend, both return types) vs the 
 coq/C02/Model.v; oracle: the property text evaluated per zone with exact arithmetic (fractions.Fraction).
 Shared generators / helpers for C03 and C04 live here too (they import this module)."""
 import math
+import multiprocessing as mp
+import os
 from fractions import Fraction
 
 import numpy as np
@@ -16,7 +18,9 @@ RULE = ('random rasters up to 8x8 (plus 1xN / Nx1 / single cell): zone ids from 
         'int32/int64/float32/float64 zones; integer-valued values (so sums are exact) in int/float dtypes with NaN/+-inf cells; '
         'nodata in {None, NaN, 0, a present value, a zone id}; zone_ids None / random sub-lists in any order with absent and '
         'duplicate ids (occasionally NaN); random subsets of the seven statistics or the user reducers double_sum / ptp; both '
-        'return types. Named hard cases: zone whose cells are all nodata/NaN, last zone, one-cell zones, all zones non-finite. '
+        'return types; zones and values INDEPENDENTLY in memory layout C / Fortran copy / transposed view / strided view; plus a '
+        'Dask-backed stream (1-4 blocks, values chunked like or unlike zones, >= 1 requested zone exists) with selected zones '
+        'that have no valid cell (all NaN/inf/nodata), negative-only values and zones whose max / min is 0. Named hard cases: zone whose cells are all nodata/NaN, last zone, one-cell zones, all zones non-finite. '
         'A case is non-trivial when at least one finite zone has a valid cell; cases are distinct by their JSON encoding.')
 TRUSTED = [
     'np.argsort / fancy indexing / np.unique / boolean masking are modelled (stable insertion sort by zone with NaN last, '
@@ -33,7 +37,8 @@ TRUSTED = [
     'instantiates it with count/sum/min/max/mean/var and the two user reducers 2*sum and max-min',
 ]
 ASSUMPTIONS = [
-    'NumPy backend (the Dask path is C03); the source carries fixes/C02-neg-inf-zone.diff (without it a -inf zone cell shifts '
+    'the theorems are about the NumPy path (the Dask path is proved equal to it in C03); the Dask-backed stream here is checked '
+    'by the oracle and against the same model; the source carries fixes/C02-neg-inf-zone.diff (without it a -inf zone cell shifts '
     'every slice: reported as a violation with key neg-inf-zone-shifts-slices)',
     'zone_ids contains no NaN in the theorem C02_stats_spec (NaN ids are exercised by the correspondence only)',
     'user reducers are permutation invariant (np.argsort does not fix the order of the cells inside a zone)',
@@ -140,6 +145,29 @@ def gen_values(rng, rows, cols, dtype, lo=-9, hi=20, small=False):
 
 def np_array(data, dtype):
     return np.array(data, dtype='float64').astype(dtype)
+
+
+LAYOUTS = ['C', 'F', 'T', 'S']
+
+
+def layout_array(data, dtype, layout):
+    """the same logical raster in a given memory layout: C-contiguous, Fortran-ordered copy, transposed view of a
+    C array, or a strided (non-contiguous) view into a larger buffer filled with junk"""
+    a = np_array(data, dtype)
+    if layout == 'F':
+        a = np.asfortranarray(a)
+    elif layout == 'T':
+        a = np.ascontiguousarray(a.T).T
+    elif layout == 'S':
+        big = np.full((a.shape[0] * 2, a.shape[1] * 2 + 1), 77, dtype=a.dtype)
+        big[::2, 1::2] = a
+        a = big[::2, 1::2]
+    return a
+
+
+def pick_layout(rng):
+    u = rng.random()
+    return 'C' if u < 0.4 else ('F' if u < 0.6 else ('T' if u < 0.8 else 'S'))
 
 
 def shape_for(rng, quick=True):
@@ -314,15 +342,92 @@ def gen_case(rng, quick, i):
         rng.shuffle(names)
     rt = 'xarray.DataArray' if rng.random() < 0.3 else 'pandas.DataFrame'
     return dict(fn='stats', zones=zones, values=values, zdtype=zd, vdtype=vd, nodata=nodata, zone_ids=zone_ids,
-                stats=names, return_type=rt)
+                stats=names, return_type=rt, zlayout=pick_layout(rng), vlayout=pick_layout(rng), backend='numpy')
+
+
+def composition(rng, n, max_parts):
+    k = rng.randint(1, min(n, max_parts))
+    cuts = sorted(rng.sample(range(1, n), k - 1)) if k > 1 else []
+    return [b - a for a, b in zip([0] + cuts, cuts + [n])]
+
+
+def gen_dask_case(rng, i):
+    """Dask-backed stream (the property does not restrict the backend): few blocks, default statistics only, at least
+    one requested zone exists; hard cases: a selected zone without any valid cell (all NaN / all nodata), zones whose
+    values are all negative, zones whose maximum / minimum is 0"""
+    rows, cols = rng.randint(1, 5), rng.randint(1, 5)
+    zd = ZD[i % 4]
+    vd = VD[(i // 4) % 4]
+    zones, alphabet = gen_zones(rng, rows, cols, zd, p_nan=0.05, p_pinf=0.03, p_ninf=0.03)
+    present = finite_zone_ids(zones)
+    if not present:
+        zones[0][0] = 1.0
+        present = [1.0]
+    mode = i % 4
+    if mode == 0:
+        values = gen_values(rng, rows, cols, vd, lo=-20, hi=-1)       # negative-only values
+    elif mode == 1:
+        values = gen_values(rng, rows, cols, vd, lo=-6, hi=0)         # maxima equal to 0
+    elif mode == 2:
+        values = gen_values(rng, rows, cols, vd, lo=0, hi=6)          # minima equal to 0
+    else:
+        values = gen_values(rng, rows, cols, vd)
+    vals_present = [v for row in values for v in row if isfin(v)]
+    u = rng.random()
+    nodata = None if u < 0.35 else (rng.choice(vals_present) if (u < 0.7 and vals_present) else (0 if u < 0.85 else NAN))
+    if rng.random() < 0.6:          # a zone without any valid cell
+        z0 = rng.choice(present)
+        fl = vd.startswith('float')
+        if nodata is not None and isfin(float(nodata)) and (not fl or rng.random() < 0.5):
+            fill = float(nodata)
+        elif fl:
+            fill = rng.choice([NAN, NAN, INF, -INF])
+        else:
+            nodata = fill = float(rng.randint(-3, 3))
+        for r in range(rows):
+            for c in range(cols):
+                if zones[r][c] == z0:
+                    values[r][c] = fill
+    if rng.random() < 0.5:
+        zone_ids = None
+    else:
+        pool = list(present) + [11.0, -7.0]
+        zone_ids = [rng.choice(pool) for _ in range(rng.randint(1, 4))]
+        if not any(z in present for z in zone_ids):
+            zone_ids.append(rng.choice(present))
+        rng.shuffle(zone_ids)
+        if all(float(z) == int(z) for z in zone_ids) and rng.random() < 0.5:
+            zone_ids = [int(z) for z in zone_ids]
+    names = [s for s in ALL_STATS if rng.random() < 0.6] or ['max', 'min']
+    if rng.random() < 0.5:
+        names = list(dict.fromkeys(names + ['max', 'min']))
+    rng.shuffle(names)
+    zch = [composition(rng, rows, 2), composition(rng, cols, 2)]
+    vch = zch if rng.random() < 0.7 else [composition(rng, rows, 2), composition(rng, cols, 2)]
+    return dict(fn='stats', zones=zones, values=values, zdtype=zd, vdtype=vd, nodata=nodata, zone_ids=zone_ids, stats=names,
+                return_type='pandas.DataFrame', zlayout=pick_layout(rng), vlayout=pick_layout(rng), backend='dask',
+                zchunks=zch, vchunks=vch)
 
 
 def run_impl(case):
     from xrspatial.zonal import stats
-    z = xr.DataArray(np_array(case['zones'], case['zdtype']), dims=['y', 'x'])
-    v = xr.DataArray(np_array(case['values'], case['vdtype']), dims=['y', 'x'])
-    res = stats(zones=z, values=v, zone_ids=case['zone_ids'], stats_funcs=stats_arg(case['stats']),
-                nodata_values=case['nodata'], return_type=case['return_type'])
+    za = layout_array(case['zones'], case['zdtype'], case.get('zlayout', 'C'))
+    va = layout_array(case['values'], case['vdtype'], case.get('vlayout', 'C'))
+    if case.get('backend', 'numpy') == 'dask':
+        import dask
+        import dask.array as da
+        za = da.from_array(za, chunks=tuple(tuple(c) for c in case['zchunks']))
+        va = da.from_array(va, chunks=tuple(tuple(c) for c in case['vchunks']))
+        z = xr.DataArray(za, dims=['y', 'x'])
+        v = xr.DataArray(va, dims=['y', 'x'])
+        with dask.config.set(scheduler='synchronous'):
+            res = stats(zones=z, values=v, zone_ids=case['zone_ids'], stats_funcs=stats_arg(case['stats']),
+                        nodata_values=case['nodata']).compute()
+    else:
+        z = xr.DataArray(za, dims=['y', 'x'])
+        v = xr.DataArray(va, dims=['y', 'x'])
+        res = stats(zones=z, values=v, zone_ids=case['zone_ids'], stats_funcs=stats_arg(case['stats']),
+                    nodata_values=case['nodata'], return_type=case['return_type'])
     if case['return_type'] == 'pandas.DataFrame':
         cols = list(res.columns)
         if cols != ['zone'] + list(case['stats']):
@@ -449,7 +554,16 @@ def nontrivial(case):
     return any(zone_valid_values(case['zones'], case['values'], z, nd) for z in finite_zone_ids(case['zones']))
 
 
-def run(ctx, n=None):
+def _eval_dask(case):
+    import warnings
+    warnings.filterwarnings('ignore')
+    try:
+        return run_impl(case)
+    except Exception as e:      # noqa
+        return ('raised', '%s: %s' % (type(e).__name__, str(e)[:200]))
+
+
+def run(ctx, n=None, n_dask=None):
     rng = ctx.rng
     n = n or (2500 if ctx.quick() else 25000)
     pending = []
@@ -461,6 +575,7 @@ def run(ctx, n=None):
         ctx.count('%s/z=%s/v=%s/%s/%s' % ('df' if case['return_type'] == 'pandas.DataFrame' else 'raster', case['zdtype'],
                                            case['vdtype'], 'ids' if case['zone_ids'] is not None else 'all',
                                            'custom' if case['stats'][0] in CUSTOM else 'default'))
+        ctx.count('layout/zones=%s/values=%s' % (case['zlayout'], case['vlayout']))
         if has_neg_inf_zone(case):
             ctx.count('hard/-inf-zone-cell')
         try:
@@ -472,6 +587,27 @@ def run(ctx, n=None):
         oracle(ctx, case, out)
         line, s = model_line(case)
         pending.append((line, s, case, out))
+    # ---- Dask-backed stream: same oracle, same model (evaluated in a small worker pool) ----
+    nd = n_dask if n_dask is not None else (96 if ctx.quick() else 900)
+    dcases = [gen_dask_case(rng, i) for i in range(nd)]
+    if dcases:
+        with mp.get_context('fork').Pool(min(6, int(os.environ.get('VERIF_POOL', '6')))) as pool:
+            douts = pool.map(_eval_dask, dcases, chunksize=2)
+        for case, out in zip(dcases, douts):
+            ctx.case(case, nontrivial=nontrivial(case))
+            nd_ = None if case['nodata'] is None else float(case['nodata'])
+            empty = any(not zone_valid_values(case['zones'], case['values'], z, nd_)
+                        for z in requested_rows(case['zones'], case['zone_ids']))
+            ctx.count('dask/blocks=%d/%s%s' % (len(case['zchunks'][0]) * len(case['zchunks'][1]),
+                                               'same-chunks' if case['zchunks'] == case['vchunks'] else 'values-chunked-differently',
+                                               '/selected-zone-without-valid-cell' if empty else ''))
+            if isinstance(out, tuple):
+                ctx.violation('oracle', 'stats (dask, chunks %r) raised %s' % (case['zchunks'], out[1]), case,
+                              key='neg-inf-zone-shifts-slices' if has_neg_inf_zone(case) else None)
+                continue
+            oracle(ctx, case, out)
+            line, s = model_line(case)
+            pending.append((line, s, case, out))
     if ctx.model is not None and pending:
         outs = ctx.model.run([p[0] for p in pending])
         for (line, s, case, out), mo in zip(pending, outs):
@@ -484,7 +620,7 @@ def search(ctx):
     old, model = ctx.tier, ctx.model
     ctx.tier, ctx.model = 'thorough', None
     try:
-        run(ctx, n=6000)
+        run(ctx, n=6000, n_dask=200)
     finally:
         ctx.tier, ctx.model = old, model
 
